@@ -2,6 +2,8 @@ import Zc.Proofs.LinkConverge
 import Zc.Proofs.LinkBridge
 import Zc.Proofs.LinkBridgeK2
 import Zc.Proofs.LinkBridgeK1
+import Zc.Proofs.LinkBridgeK3
+import Zc.Proofs.LinkBridgeK5
 import Zc.GenFacts.Link
 /-! # C07 — end-to-end discovery converges to the set of registered services
 
@@ -218,12 +220,62 @@ theorem C07_K1_from_C09_partial (lower : String → String) (N : Bridge.Naming) 
     K1 Cfg.paper (Bridge.events lower N steps) endT = true :=
   Bridge.K1_of_run lower N hsv steps T0 endT hrun hd hfair hopen hdist
 
-/-- the contracts that are still hypotheses once K1, K2 and K6 are discharged from the C08/C09 model -/
+/-- **K3 from C10's two-container scheduler model** (`Zc.Sched2`, through `C10_startup2`).  The scheduler model says when the
+scheduler asks for which types; what that puts on the wire (known answers from the cache, the question left out because the host
+asked or heard it less than a second ago) is C13's `generate_service_query` + question history, which enters as the mapping
+`Bridge.WireAsk` from a scheduler send to "the question is on the wire or was suppressed by one that is".  Liveness needs no extra
+axiom here: C10's `exec2` accepts only histories in which no due timer is passed, so "the history goes beyond the end of the window"
+(`BrowserRun.ex`: `endT < lastTime`) forces the four start-up passes to have run. -/
+theorem C07_K3_from_C10 (tr : Trace) (endT : Int)
+    (hb : ∀ x ∈ browses tr, neverClosed tr x.2.host = true → Bridge.BrowserRun tr endT x.1 x.2) :
+    K3 Cfg.paper tr endT = true :=
+  Bridge.K3_of_browsers tr endT hb
+
+/-- **K3b from C10's model — the main case only** (partial).  For a pointer record that is new to the scheduler, learned at `t`
+after `start` with its 75 % point after the start-up phase, and neither refreshed nor withdrawn up to a block beyond the second
+deadline, `C10_refresh_chain2` gives the 75 % query in `[t + 750·ttl, … + 10 s]` and the 85 % query 10 % of the TTL after it (at
+most 10 s late); with C13's mapping for a stale record (`Bridge.WireAskWithout`) these are K3b's two refresh opportunities.  What does
+**not** follow from the merged C10 theorems, so K3b stays a monitored hypothesis of `C07_convergence_from_models_partial`
+(notes/agents/C07.md, "K3b"): (i) a *refreshed* record whose schedule is kept ("avoid churn") may be queried up to 10 s after its
+new 75 % point plus two late passes — 30 s after the 85 % point, K3b's window allows 25 s; (ii) a record whose 75 % point lies
+inside the browser's start-up phase (C10 names this case as not covered); (iii) for a kept schedule the type asked is the name
+stored when the alias was first scheduled — "one alias, one type" is not an invariant of the scheduler model; (iv) a browser
+started after the 75 % point (K3b's other branch) reduces to K3's third and fourth windows plus C13's staleness rule. -/
+theorem C07_K3b_from_C10_partial (tr : Trace) (b : Br) (s : Svc) (types : List String) (tS : Int)
+    (pre0 : List (Int × Sched.Op)) (tb : Int) (d : Nat) (pre : List (Int × Sched.Op)) (t : Int) (a n : String) (ttl : Nat)
+    (evsA : List (Int × Sched.Op)) (tn : Int) (opn : Sched.Op) (rest : List (Int × Sched.Op)) (s' : Sched2.S2)
+    (outs : List Sched.Send)
+    (hidle : C10.IdleOps pre0) (hnew0 : C10.Untouched a pre0) (hpre : C10.Active pre) (hnew : C10.Untouched a pre)
+    (hact : C10.Active evsA) (hun : C10.Untouched a evsA)
+    (hlate : tb + d + 14000 ≤ t + 750 * ttl) (httl : 1125 ≤ ttl) (htb : tb ≤ t + 750 * ttl)
+    (hbeyond : t + 850 * ttl + 20000 < tn)
+    (hex : Sched2.exec2 (C10.browserCfg types 10000 none) {} tS
+      (pre0 ++ (tb, .start d) :: (pre ++ (t, .ptr a n ttl t) :: (evsA ++ (tn, opn) :: rest))) = .ok (s', outs))
+    (hwire : ∀ o ∈ outs, n ∈ o.types → t + 750 * ttl ≤ o.t → Bridge.WireAskWithout tr b s o) :
+    refreshOpp tr b.host b.ty s (refreshWindow Cfg.paper t ttl tb false).1 (refreshWindow Cfg.paper t ttl tb false).2 = true
+    ∧ refreshOpp tr b.host b.ty s (refreshWindow Cfg.paper t ttl tb true).1 (refreshWindow Cfg.paper t ttl tb true).2 = true :=
+  Bridge.K3b_windows_main tr b s types tS pre0 tb d pre t a n ttl evsA tn opn rest s' outs hidle hnew0 hpre hnew hact hun hlate
+    httl htb hbeyond hex hwire
+
+/-- **K5 from the C04 / C05 / C06 models.**  `C04_live_eq_cache` (for every history — datagrams and purges before the browser
+exists, its creation with purge and replay, any datagrams and purges after — "reported Added and not since Removed" = "the cache
+holds the pointer record") composed with `Bridge.cache_track`, which folds C05's per-datagram `PostState` and `C05_purge_exact`
+along the history into a closed form for "the cache holds the pointer record" (`Bridge.track`: set by the last datagram with a live
+copy, cleared by a goodbye copy and by a purge at or after created + 1000·TTL; `Bridge.live_eq_track`).  The projection
+(`Bridge.CacheRun`) identifies the browser's Added / Removed events in the link trace with the callbacks of the run, instant by
+instant, and states C05/C06's expiry semantics in link terms: `heldFresh ⇒ track runs ⇒ heldGrace` (the second arrow is where
+the periodic purge — at most one cleanup period after the expiry — enters; K5's "one cleanup period of grace").  Hypotheses on
+the datagrams: `WFHistory` (C04's quantifier) and no cache-flush record on a browsed type name (`NoFlush`; pointer records are
+shared records). -/
+theorem C07_K5_from_C04 (tr : Trace) (endT : Int) (hruns : ∀ x ∈ browses tr, Bridge.CacheRun tr x.1 x.2) :
+    K5 Cfg.paper tr endT = true :=
+  Bridge.K5_of_cacheRuns tr endT hruns
+
+/-- the contracts that are still hypotheses once K1, K2, K6 (C08/C09 host machine), K3 (C10 scheduler) and K5 (C04 browser over
+the C05/C06 cache) are discharged -/
 structure C07_ContractsFromModels (lower : String → String) (tr : Trace) (endT : Int) : Prop where
   wf : WF Cfg.paper tr endT = true
-  k3 : K3 Cfg.paper tr endT = true
   k4 : K4 Cfg.paper tr endT = true
-  k5 : K5 Cfg.paper tr endT = true
   k7 : K7 Cfg.paper tr endT = true
   k3b : K3b Cfg.paper tr endT = true
   /-- instead of K1, K2 and K6: every host's sends and `reg` / `upd` / `unreg` events are those of a disciplined, fair run of the
@@ -232,16 +284,23 @@ structure C07_ContractsFromModels (lower : String → String) (tr : Trace) (endT
   hosts : Bridge.Hosts lower tr endT
   /-- the route of a goodbye (the machine does not model routes): TTL-0 PTRs are multicast (C11) -/
   byeMulticast : Bridge.ByeMulticast tr
+  /-- instead of K3: every browser on a never-closed host is a history of C10's scheduler that goes beyond the window, its queries
+  on the wire as C13 describes (`Bridge.WireAsk`) -/
+  browsers : ∀ x ∈ browses tr, neverClosed tr x.2.host = true → Bridge.BrowserRun tr endT x.1 x.2
+  /-- instead of K5: every browser with the cache of its host is a run of the C04 model over the C05/C06 cache -/
+  caches : ∀ x ∈ browses tr, Bridge.CacheRun tr x.1 x.2
 
-/-- **C07 with K1, K2 and K6 discharged** (partial: WF, K3, K3b, K4, K5, K7 remain monitored hypotheses; K1, K2 and K6 are
+/-- **C07 with K1, K2, K3, K5 and K6 discharged** (partial: WF, K3b, K4, K7 remain monitored hypotheses; K5 is a theorem
+about the C04 browser model over the C05/C06 cache; K1, K2 and K6 are
 theorems about the C08/C09 host machine — K1 and K2's liveness half under the event-loop axiom `Fair`, which the block machines
-do not state). -/
+do not state; K3 is a theorem about C10's scheduler model, C13's question generation entering as the mapping `WireAsk`). -/
 theorem C07_convergence_from_models_partial (lower : String → String) :
     C07_convergence (C07_ContractsFromModels lower) := by
   intro tr endT hc
   have hg := Bridge.Hosts_Generated lower tr endT hc.hosts
   exact C07_convergence_partial tr endT
-    ⟨hc.wf, Bridge.K1_of_hosts lower tr endT hc.hosts, Bridge.K2_of_generated lower tr endT hg hc.byeMulticast, hc.k3, hc.k4, hc.k5,
+    ⟨hc.wf, Bridge.K1_of_hosts lower tr endT hc.hosts, Bridge.K2_of_generated lower tr endT hg hc.byeMulticast,
+     Bridge.K3_of_browsers tr endT hc.browsers, hc.k4, Bridge.K5_of_cacheRuns tr endT hc.caches,
      Bridge.K6_of_generated lower tr (Bridge.Generated_K6 lower tr endT hg), hc.k7, hc.k3b⟩
 
 /-- non-vacuity of the bridge: C08's example history (register, three announcements, a pointer answer queued in the protected
@@ -356,6 +415,29 @@ theorem contracts : C07_Contracts tr 20000 :=
 example : lastChange tr + C07_settle ≤ 20000 := by decide
 example : upBefore tr b.host (350 + 225) = false := by decide   -- the browser's host missed every announcement
 example : live tr b s = true ∧ registered Cfg.paper tr s = true ∧ K6full tr = true ∧ K5added tr = true := by decide
+
+/-- non-vacuity of `Bridge.BrowserRun`: the browser of this run is a history of C10's scheduler — start with the draw 50, the four
+start-up passes, and the first running-phase pass at 26 050 ms (beyond the window) — whose four queries are the questions at 2050
+(QU), 3050, 7050 and 16050 ms of the trace -/
+theorem browserRun : Bridge.BrowserRun tr 20000 2000 b := by
+  have h : (Sched2.exec2 (C10.browserCfg ["_x._tcp.local."] 10000 none) {} 0
+      ([] ++ (2000, Sched.Op.start 50) :: [(2050, .fire false), (3050, .fire false), (7050, .fire false), (16050, .fire false),
+        (26050, .fire false)])).toOption.map (·.2) =
+      some [⟨2050, true, some true, ["_x._tcp.local."]⟩, ⟨3050, false, none, ["_x._tcp.local."]⟩,
+            ⟨7050, false, none, ["_x._tcp.local."]⟩, ⟨16050, false, none, ["_x._tcp.local."]⟩] := by decide
+  cases hx : Sched2.exec2 (C10.browserCfg ["_x._tcp.local."] 10000 none) {} 0
+      ([] ++ (2000, Sched.Op.start 50) :: [(2050, .fire false), (3050, .fire false), (7050, .fire false), (16050, .fire false),
+        (26050, .fire false)]) with
+  | error e => rw [hx] at h; cases h
+  | ok r =>
+    obtain ⟨s', outs⟩ := r
+    rw [hx] at h
+    simp only [Except.toOption, Option.map_some, Option.some.injEq] at h
+    subst h
+    refine ⟨⟨["_x._tcp.local."], "_x._tcp.local.", 10000, 0, [], 50, _, s', _, by decide, ?_, ?_, hx, by decide, ?_⟩⟩
+    · intro e he; cases he
+    · unfold C10.Active; decide
+    · unfold Bridge.WireAsk; decide
 end C07ex2
 
 /-! A third run exercises the refresh path (K3b) over a long horizon: the browser on host 1 learns `s` from the announcements
